@@ -132,6 +132,49 @@ theorem c07_append_zero_tail (v : Variant) (cmp : Nat → Bytes → Bytes → Bo
     deltas, and the reader's index arrays (1024 + k·1024 slots) always have slot `i` when blob `i` is recorded -/
 theorem c07_index_capacity (i : Nat) : i < RV.Cadence.capAt i := RV.Cadence.cap_ok i
 
+/-- **cadence bookkeeping survives a restart** (simulationarchive.c:417-449 heartbeat, 641-668 re-arming; the cadence
+    state is part of every snapshot).  Uninterrupted run over the step boundaries `ts1 ++ t :: ts2`, snapshot k written by
+    the heartbeat at `t` (less than one interval past its prescribed time — what `c06_cadence_interval_exact` gives for
+    steps no longer than the interval).  Restart from snapshot k, `save_to_file(interval=d)` again, integrate on: no
+    snapshot at `t` (no duplicate), afterwards exactly the uninterrupted run's snapshots (none skipped), same final state. -/
+theorem c07_cadence_restart_interval (s d next0 t : Int) (ts1 ts2 : List Int) (hs : s = 1 ∨ s = -1)
+    (hfire : s * (RV.Cadence.run RV.Cadence.intOps s d next0 ts1).2 ≤ s * t)
+    (hnl : s * t < s * (RV.Cadence.run RV.Cadence.intOps s d next0 ts1).2 + d) :
+    let n1 := (RV.Cadence.run RV.Cadence.intOps s d next0 ts1).2
+    let rest := RV.Cadence.run RV.Cadence.intOps s d (n1 + s * d) ts2
+    RV.Cadence.run RV.Cadence.intOps s d next0 (ts1 ++ t :: ts2)
+        = ((RV.Cadence.run RV.Cadence.intOps s d next0 ts1).1 ++ true :: rest.1, rest.2) ∧
+    RV.Cadence.restart RV.Cadence.intOps RV.Cadence.intNe s d (n1 + s * d) d t ts2 = (false :: rest.1, rest.2) :=
+  RV.Cadence.restart_exact s d next0 t ts1 ts2 hs hfire hnl
+
+/-- the same in step mode -/
+theorem c07_cadence_restart_step (step next0 sk : Nat) (ts1 ts2 : List Nat)
+    (hfire : (RV.Cadence.runStep step next0 ts1).2 ≤ sk) (hnl : sk < (RV.Cadence.runStep step next0 ts1).2 + step) :
+    let n1 := (RV.Cadence.runStep step next0 ts1).2
+    let rest := RV.Cadence.runStep step (n1 + step) ts2
+    RV.Cadence.runStep step next0 (ts1 ++ sk :: ts2) = ((RV.Cadence.runStep step next0 ts1).1 ++ true :: rest.1, rest.2) ∧
+    RV.Cadence.restartStep step (n1 + step) step sk ts2 = (false :: rest.1, rest.2) :=
+  RV.Cadence.restartStep_exact step next0 sk ts1 ts2 hfire hnl
+
+/-- re-arming with a DIFFERENT interval after the restart starts a new cadence at the restart time -/
+theorem c07_cadence_restart_rearmed (s d d' pn t : Int) (ts2 : List Int) (h : d ≠ d') :
+    RV.Cadence.restart RV.Cadence.intOps RV.Cadence.intNe s d pn d' t ts2
+      = (true :: (RV.Cadence.run RV.Cadence.intOps s d' (t + s * d') ts2).1, (RV.Cadence.run RV.Cadence.intOps s d' (t + s * d') ts2).2) :=
+  RV.Cadence.restart_rearmed s d d' pn t ts2 h
+
+/-- the hypothesis `hnl` of `c07_cadence_restart_interval` is needed: with the prescribed time a whole interval or more
+    behind `t` (interval shorter than a step) the restarted run writes snapshot k a second time.  The model follows
+    the source here; the real code does the same (finding `cadence:lagging-next-duplicate`). -/
+theorem c07_cadence_restart_lagging_duplicates (s d n1 t : Int) (ts2 : List Int) (hlag : s * (n1 + s * d) ≤ s * t) :
+    (RV.Cadence.restart RV.Cadence.intOps RV.Cadence.intNe s d (n1 + s * d) d t ts2).1.head? = some true :=
+  RV.Cadence.restart_lagging_duplicates s d n1 t ts2 hlag
+
+/-- wall-time mode is re-armed unconditionally, the restarted run writes a snapshot at once (documented at
+    simulationarchive.c:654) -/
+theorem c07_cadence_restart_walltime_fires (d w : Int) :
+    (RV.Cadence.hbWall RV.Cadence.intOps d (RV.Cadence.armWall d w).2 w).1 = true :=
+  RV.Cadence.wall_restart_fires d w
+
 /-- prefix lemma: walking a strict prefix of an encoded blob ends in `read_error` — never in an accepted
     blob, never in an out-of-bounds read -/
 theorem c07_prefix_read_error (v : Variant) (fs : List Field) (h : BlobOK fs) (m : Nat)
